@@ -477,3 +477,15 @@ pub fn text_fields(r: &ctap2::Request) -> Vec<(&'static str, Vec<u8>, usize)> {
     }
     out
 }
+
+pub fn p_ga_extensions_output(e: &get_assertion::ExtensionsOutput) -> V {
+    let mut m = Vec::new();
+    if let Some(x) = &e.hmac_secret {
+        m.push((V::text("hmac-secret"), bytes(&x[..])));
+    }
+    #[cfg(feature = "tpp")]
+    if let Some(x) = e.third_party_payment {
+        m.push((V::text("thirdPartyPayment"), V::Bool(x)));
+    }
+    canonical(V::M(m))
+}
